@@ -27,6 +27,8 @@
 #include "reftable-reader.h"
 #include "reftable-record.h"
 #include "reftable-writer.h"
+#include "reftable-stack.h"
+#include "reftable-merged.h"
 
 #define MAXF 16
 
@@ -146,6 +148,124 @@ static int scan_logs(struct reftable_iterator *it, int limit)
 	return err > 0 ? 0 : err;
 }
 
+/* ---- stack modes ---- */
+struct txn {
+	char **lines;
+	int n;
+	uint64_t idx;
+};
+
+static int write_txn(struct reftable_writer *w, void *arg)
+{
+	struct txn *t = arg;
+	int i, err = 0;
+	char *f[MAXF];
+	reftable_writer_set_limits(w, t->idx, t->idx);
+	for (i = 0; i < t->n && err == 0; i++) {
+		char *line = strdup(t->lines[i]);
+		int n = split(line, f);
+		if (n < 1) continue;
+		if (!strcmp(f[0], "ref")) {
+			struct reftable_ref_record r = { 0 };
+			char *a = unhex(f[4], NULL), *b = unhex(f[5], NULL);
+			r.refname = unhex(f[1], NULL);
+			r.update_index = t->idx;
+			switch (f[3][0]) {
+			case 'd': r.value_type = REFTABLE_REF_DELETION; break;
+			case 'v': r.value_type = REFTABLE_REF_VAL1; r.value.val1 = (uint8_t *)a; break;
+			case 'p': r.value_type = REFTABLE_REF_VAL2; r.value.val2.value = (uint8_t *)a; r.value.val2.target_value = (uint8_t *)b; break;
+			case 's': r.value_type = REFTABLE_REF_SYMREF; r.value.symref = a; break;
+			}
+			err = reftable_writer_add_ref(w, &r);
+		} else if (!strcmp(f[0], "log")) {
+			struct reftable_log_record l = { 0 };
+			uint64_t li = strtoull(f[2], NULL, 10);
+			l.refname = unhex(f[1], NULL);
+			l.update_index = li ? li : t->idx;
+			if (atoi(f[3])) {
+				l.value_type = REFTABLE_LOG_DELETION;
+			} else {
+				int ol = 0, nl = 0;
+				l.value_type = REFTABLE_LOG_UPDATE;
+				l.value.update.old_hash = (uint8_t *)unhex(f[4], &ol);
+				l.value.update.new_hash = (uint8_t *)unhex(f[5], &nl);
+				if (!ol) l.value.update.old_hash = NULL;
+				if (!nl) l.value.update.new_hash = NULL;
+				l.value.update.name = unhex(f[6], NULL);
+				l.value.update.email = unhex(f[7], NULL);
+				l.value.update.time = strtoull(f[8], NULL, 10);
+				l.value.update.tz_offset = (int16_t)atoi(f[9]);
+				l.value.update.message = unhex(f[10], NULL);
+			}
+			err = reftable_writer_add_log(w, &l);
+		}
+	}
+	return err;
+}
+
+static int stack_main(int argc, char **argv)
+{
+	struct reftable_write_options opts = { 0 };
+	struct reftable_stack *st = NULL;
+	int err;
+	/* cdriver stackread|stackwrite <in.txt> <dir>; first line of in.txt: opt ... */
+	FILE *in = fopen(argv[2], "r");
+	char *line = NULL;
+	size_t cap = 0;
+	char *f[MAXF];
+	struct txn t = { 0 };
+	int writing = !strcmp(argv[1], "stackwrite");
+	if (!in) { perror("in"); return 2; }
+	while (getline(&line, &cap, in) > 0) {
+		char *copy = strdup(line);
+		int n = split(line, f);
+		if (n < 1) continue;
+		if (!strcmp(f[0], "opt")) {
+			opts.block_size = atoi(f[1]);
+			opts.restart_interval = atoi(f[2]);
+			opts.unpadded = atoi(f[3]);
+			opts.skip_index_objects = atoi(f[4]);
+			if (!strcmp(f[5], "s256")) { opts.hash_id = 0x73323536; hash_size = 32; }
+			else opts.hash_id = 0x73686131;
+			opts.exact_log_message = atoi(f[6]);
+			err = reftable_new_stack(&st, argv[3], opts);
+			if (err < 0) { printf("{\"op\":\"open\",\"err\":%d}\n", err); return 0; }
+			printf("{\"op\":\"open\",\"err\":0}\n");
+		} else if (!st) {
+			continue;
+		} else if (!strcmp(f[0], "txn") && writing) {
+			t.n = 0;
+		} else if ((!strcmp(f[0], "ref") || !strcmp(f[0], "log")) && writing) {
+			t.lines = realloc(t.lines, sizeof(char *) * (t.n + 1));
+			t.lines[t.n++] = copy;
+		} else if (!strcmp(f[0], "commit") && writing) {
+			t.idx = reftable_stack_next_update_index(st);
+			err = reftable_stack_add(st, write_txn, &t);
+			printf("{\"op\":\"add\",\"rc\":%d,\"idx\":%llu}\n", err, (unsigned long long)t.idx);
+			t.n = 0;
+		} else if (!strcmp(f[0], "compactall") && writing) {
+			err = reftable_stack_compact_all(st, NULL);
+			printf("{\"op\":\"compact\",\"rc\":%d}\n", err);
+		}
+	}
+	if (st) {
+		struct reftable_merged_table *mt = reftable_stack_merged_table(st);
+		struct reftable_iterator it = { 0 };
+		printf("{\"op\":\"view\",\"refs\":");
+		err = reftable_merged_table_seek_ref(mt, &it, "");
+		if (err == 0) err = scan_refs(&it, 0); else printf("[],\"n\":0");
+		reftable_iterator_destroy(&it);
+		printf(",\"referr\":%d,\"logs\":", err);
+		memset(&it, 0, sizeof(it));
+		err = reftable_merged_table_seek_log(mt, &it, "");
+		if (err == 0) { printf("{\"l\":"); err = scan_logs(&it, 0); printf("}"); } else printf("{\"l\":[],\"n\":0}");
+		reftable_iterator_destroy(&it);
+		printf(",\"logerr\":%d}\n", err);
+		reftable_stack_destroy(st);
+	}
+	return 0;
+}
+
 int main(int argc, char **argv)
 {
 	FILE *in;
@@ -154,7 +274,9 @@ int main(int argc, char **argv)
 	char *f[MAXF];
 	int writing;
 
-	if (argc != 4) { fprintf(stderr, "usage: cdriver write|read in.txt file.ref\n"); return 2; }
+	if (argc != 4) { fprintf(stderr, "usage: cdriver write|read|stackread|stackwrite in.txt file.ref|dir\n"); return 2; }
+	if (!strncmp(argv[1], "stack", 5))
+		return stack_main(argc, argv);
 	writing = !strcmp(argv[1], "write");
 	in = fopen(argv[2], "r");
 	if (!in) { perror("in"); return 2; }
